@@ -179,6 +179,9 @@ def spec_on_impl(o, alpha):
     if cancel == -2:
         if reads == 0 or prefix[last] < 128:
             return ("ends", "the receiver ended without cancellation and without a closed or broken socket")
+        if 2 * last in reported:
+            return ("ends-after-unknown", "%s at position %d is reported as an unknown error and then reading stops "
+                                          "(unknown failures must not end reading)" % (step_text(alpha, prefix[last]), last))
     return None
 
 
@@ -284,7 +287,7 @@ def run(ctx):
     proof_ok = gen_ok and ctx.coq_proofs("Properties/C20.v")
     rows, alpha = [], None
     if ctx.harness_build("c20"):
-        args = ["-out", "cases.jsonl", "-seed", ctx.seed]
+        args = ["-out", "cases.jsonl", "-seed", ctx.seed, "-corpus", os.path.join(verif.ROOT, "corpus", "C20")]
         if quick:
             args += ["-n", 1500, "-exh", 3, "-exhc", 2, "-pairs", 600, "-bursts", 16]
         else:
@@ -363,7 +366,7 @@ MANIFEST = {
                  "of the error classification over a structural model of Go error values) + classification lists and "
                  "channel capacity translated from receiver.go + differential correspondence against the real receiver "
                  "with scripted Reader/Processor mocks returning real error values",
-    "level_text": "19 theorems (frames once in order; transient silent; unknown and processor errors reported once in "
+    "level_text": "21 theorems (frames once in order, none twice, every read frame processed; transient silent; unknown and processor errors reported once in "
                   "order; reading continues until a closed/broken socket; closed ends; cancel ends; burst blocks at "
                   "capacity and is released by cancel; which errors are transient / end reading, both directions) hold for "
                   "ALL scripts, capacities, consumers, cancellation positions and select outcomes; the model is compared "
